@@ -733,6 +733,11 @@ func (cfg *Config) wordFields(wps []syntax.WordPart) ([][]fieldPart, error) {
 			if err != nil {
 				return nil, err
 			}
+			if len(wfield) == 0 {
+				// An empty "" has no parts, but it still results in a field,
+				// such as the empty first field in ""$x with x=" a".
+				curField = append(curField, fieldPart{quote: quoteDouble})
+			}
 			for _, part := range wfield {
 				part.quote = quoteDouble
 				curField = append(curField, part)
